@@ -262,20 +262,33 @@ class EditStream(HTMLHandlerBase):
                 k.toJSON(exclude=exclude, pure=True) for k in context['keys']
             ]
             return jsonify(result)
-        options = self.calculate_options('vod', flask.request.args)
+        try:
+            options = self.calculate_options('vod', flask.request.args)
+        except ValueError as err:
+            logging.info('Invalid CGI parameters: %s', err)
+            return flask.make_response('Invalid CGI parameters', 400)
         options.audioCodec = 'any'
         options.textCodec = None
         options.drmSelection = []
-        mc = ManifestContext(
-            options=options, stream=current_stream, multi_period=None,
-            manifest=default_manifest)
-        clear_adaptation_sets = [mc.video] + mc.audio_sets + mc.text_sets
+        clear_adaptation_sets: list[AdaptationSet] = []
+        enc_adaptation_sets: list[AdaptationSet] = []
+        try:
+            mc = ManifestContext(
+                options=options, stream=current_stream, multi_period=None,
+                manifest=default_manifest)
+            clear_adaptation_sets = [mc.video] + mc.audio_sets + mc.text_sets
+        except ValueError as err:
+            # e.g. no timing reference, or no clear video in this stream
+            logging.debug('No clear adaptation sets: %s', err)
         drmSelection = DrmSelection.from_string(','.join(DrmSystem.values()))
         enc_options = options.clone(drmSelection=drmSelection)
-        mc = ManifestContext(
-            options=enc_options, stream=current_stream, multi_period=None,
-            manifest=default_manifest)
-        enc_adaptation_sets = [mc.video] + mc.audio_sets + mc.text_sets
+        try:
+            mc = ManifestContext(
+                options=enc_options, stream=current_stream, multi_period=None,
+                manifest=default_manifest)
+            enc_adaptation_sets = [mc.video] + mc.audio_sets + mc.text_sets
+        except ValueError as err:
+            logging.debug('No encrypted adaptation sets: %s', err)
         if 'fragment' in flask.request.args:
             layout = 'fragment.html'
         else:
